@@ -6,6 +6,12 @@ props = [json.loads(l) for l in open('/verif/properties.jsonl')]
 
 # id -> (level, technique, text, note, design_ref)
 CHECKS = {
+ 'C03': ('other', 'PyVC symbolic execution of the real compare/__lt__/__eq__ ASTs on enumerated comparable type shapes with symbolic leaves (S, complete in values); run-time contracts on domain types and set literals (R)',
+         'for every enumerated comparable type shape (depth <= 2, thorough 3) and every None/Some, Left/Right variant pair, compare(a,b) equals the Michelson order and is antisymmetric for ALL leaf values; domain types (address, key_hash, key, signature, chain_id) and ordered collections on real boundary values, all pairs + triples',
+         'assumed: CPython order on int/str/bytes; strings modelled by integer ranks; not demanded: default-vs-named entrypoint order, P-256 tie-break; bounded type shapes', '5/C03'),
+ 'C20': ('other', 'PyVC symbolic execution of the real ticket type/instruction ASTs with all amounts symbolic (P); enumerated type shapes for is_duplicable (S)',
+         'split/join/TICKET/SPLIT_TICKET return None exactly where Michelson says and conserve the total amount for ALL amounts (ticketer/content equality cases enumerated); is_duplicable false for every enumerated type containing a ticket; whole-program conservation is NOT covered deductively',
+         'assumed: NatType invariant (amount >= 0); ErrorTrace wrapper only re-labels exceptions; PyVC encoding; z3', '5/C20'),
  'C05': ('other', 'PyVC: VCs from the real AST + loop invariants, z3/cvc5 (P); symbolic execution on enumerated tree shapes (S, bounded); run-time contracts (R, bounded)',
          'forge_nat/forge_int/unforge_int/get_tag/read_tag/forge_array/unforge_array proved for all integers and all byte strings against the Zarith/Micheline grammar spec; forge_micheline/unforge_micheline only on bounded tree shapes (symbolic leaves) and bounded native trees; claimed as other because the recursive parser is not proved unbounded',
          'trusted: PyVC encoding of the Python subset, z3/cvc5, specs/zarith.py + specs/micheline_bin.py; assumed inverse pairs hex/fromhex, encode/decode, str/int; prim table read live', '5/C05'),
